@@ -2,11 +2,25 @@ package main
 
 import (
 	"fmt"
-	"verifharness/internal/mpclgen"
-	"verifharness/internal/vrt"
+	"math/big"
+	"os"
+
+	"github.com/markkurossi/mpc/compiler"
+	"github.com/markkurossi/mpc/compiler/utils"
 )
 
 func main() {
-	p := mpclgen.Generate(vrt.NewRng(59), mpclgen.Config{Arrays: true, Structs: true, Funcs: true, Loops: true, Division: true, Mult: true})
-	fmt.Println(p.Src)
+	os.Setenv("MPCLDIR", "/repo")
+	params := utils.NewParams()
+	cc := compiler.New(params)
+	src, _ := os.ReadFile(os.Args[1])
+	for i := 0; i < 2; i++ {
+		c, _, err := cc.Compile(string(src), nil)
+		if err != nil {
+			fmt.Println(err)
+			continue
+		}
+		out, err := c.Compute([]*big.Int{big.NewInt(0xabcd), big.NewInt(0)})
+		fmt.Printf("compile %d: gates=%d out=%x err=%v\n", i, c.NumGates, out, err)
+	}
 }
